@@ -97,6 +97,7 @@ package cors
 //@   ensures C15.methods_are_a_set: result == nil && !icfg.allowAnyMethod ==> (forall x string :: Mem(icfg.allowedMethods, x) == (exists j :: 0 <= j && j < len(names) && old(names[j]) != "*" && methods.IsValid(old(names[j])) && !methods.IsSafelisted(methods.Normalize(old(names[j]))) && !methods.IsForbidden(methods.Normalize(old(names[j]))) && x == methods.Normalize(old(names[j]))))
 //@   onappend C05.method_error: dyntype(e, "*cfgerrors.UnacceptableMethodError") && payload(e, "*cfgerrors.UnacceptableMethodError") != nil && (payload(e, "*cfgerrors.UnacceptableMethodError").Reason == "invalid" ? payload(e, "*cfgerrors.UnacceptableMethodError").Value === names[rangeindex+1] : (payload(e, "*cfgerrors.UnacceptableMethodError").Reason == "forbidden" && payload(e, "*cfgerrors.UnacceptableMethodError").Value === methods.Normalize(names[rangeindex+1])))
 //@   loop 0 invariant -1 <= rangeindex && rangeindex < len(names)
+//@   loop 0 invariant C05.method_violation_count: len(errs) == old(NBadMethods(names, rangeindex))
 //@   loop 0 invariant (len(errs) == 0) == (forall j :: 0 <= j && j <= rangeindex ==> OkMethod(old(names[j])))
 //@   loop 0 invariant forall k :: 0 <= k && k < len(errs) ==> errs[k] != nil
 //@   loop 0 invariant icfg.allowAnyMethod == (exists j :: 0 <= j && j <= rangeindex && old(names[j]) == "*")
@@ -127,6 +128,7 @@ package cors
 //@   ensures result == nil && icfg.asteriskReqHdrs ==> len(icfg.allowedReqHdrs.elems) == 0 && icfg.acah == nil
 //@   onappend C05.request_header_error: dyntype(e, "*cfgerrors.UnacceptableHeaderNameError") && payload(e, "*cfgerrors.UnacceptableHeaderNameError") != nil && payload(e, "*cfgerrors.UnacceptableHeaderNameError").Value === names[rangeindex+1] && payload(e, "*cfgerrors.UnacceptableHeaderNameError").Type == "request" && (payload(e, "*cfgerrors.UnacceptableHeaderNameError").Reason == "invalid" || payload(e, "*cfgerrors.UnacceptableHeaderNameError").Reason == "forbidden" || payload(e, "*cfgerrors.UnacceptableHeaderNameError").Reason == "prohibited")
 //@   loop 0 invariant -1 <= rangeindex && rangeindex < len(names)
+//@   loop 0 invariant C05.request_header_violation_count: len(errs) == old(NBadReqHdrs(names, rangeindex))
 //@   loop 0 invariant (len(errs) == 0) == (forall j :: 0 <= j && j <= rangeindex ==> OkReqHdr(old(names[j])))
 //@   loop 0 invariant forall k :: 0 <= k && k < len(errs) ==> errs[k] != nil
 //@   loop 0 invariant icfg.asteriskReqHdrs == (exists j :: 0 <= j && j <= rangeindex && old(names[j]) == "*")
@@ -151,6 +153,7 @@ package cors
 //@   ensures icfg.credentialed == old(icfg.credentialed)
 //@   onappend C05.response_header_error: (dyntype(e, "*cfgerrors.IncompatibleWildcardResponseHeaderNameError") && names[rangeindex+1] == "*" && icfg.credentialed) || (dyntype(e, "*cfgerrors.UnacceptableHeaderNameError") && payload(e, "*cfgerrors.UnacceptableHeaderNameError") != nil && payload(e, "*cfgerrors.UnacceptableHeaderNameError").Value === names[rangeindex+1] && payload(e, "*cfgerrors.UnacceptableHeaderNameError").Type == "response" && (payload(e, "*cfgerrors.UnacceptableHeaderNameError").Reason == "invalid" || payload(e, "*cfgerrors.UnacceptableHeaderNameError").Reason == "forbidden" || payload(e, "*cfgerrors.UnacceptableHeaderNameError").Reason == "prohibited"))
 //@   loop 0 invariant -1 <= rangeindex && rangeindex < len(names)
+//@   loop 0 invariant C05.response_header_violation_count: len(errs) == old(NBadResHdrs(names, icfg.credentialed, rangeindex))
 //@   loop 0 invariant (len(errs) == 0) == (forall j :: 0 <= j && j <= rangeindex ==> OkResHdr(old(names[j]), icfg.credentialed))
 //@   loop 0 invariant forall k :: 0 <= k && k < len(errs) ==> errs[k] != nil
 //@   loop 0 invariant exposeAllResHdrs == (exists j :: 0 <= j && j <= rangeindex && old(names[j]) == "*")
@@ -181,6 +184,7 @@ package cors
 //@   ensures icfg.credentialed == old(icfg.credentialed) && icfg.privateNetworkAccess == old(icfg.privateNetworkAccess) && icfg.privateNetworkAccessNoCors == old(icfg.privateNetworkAccessNoCors)
 //@   onappend C05.origin_error: e != nil && ((dyntype(e, "*cfgerrors.UnacceptableOriginPatternError") && payload(e, "*cfgerrors.UnacceptableOriginPatternError").Value === patterns[rangeindex+1]) || (dyntype(e, "*cfgerrors.IncompatibleOriginPatternError") && payload(e, "*cfgerrors.IncompatibleOriginPatternError") != nil && (patterns[rangeindex+1] == "*" ? payload(e, "*cfgerrors.IncompatibleOriginPatternError").Value == "*" : payload(e, "*cfgerrors.IncompatibleOriginPatternError").Value === patterns[rangeindex+1]) && ((payload(e, "*cfgerrors.IncompatibleOriginPatternError").Reason == "credentialed" && icfg.credentialed) || (payload(e, "*cfgerrors.IncompatibleOriginPatternError").Reason == "pna" && PNA(icfg)) || (payload(e, "*cfgerrors.IncompatibleOriginPatternError").Reason == "psl" && patterns[rangeindex+1] != "*" && !icfg.subsOfPublicSuffixes))))
 //@   loop 0 invariant -1 <= rangeindex && rangeindex < len(patterns)
+//@   loop 0 invariant C05.origin_violation_count: len(errs) == NViolOrigins(icfg, patterns, rangeindex)
 //@   loop 0 invariant a1: (len(errs) == 0) ==> (forall j :: 0 <= j && j <= rangeindex ==> OkOrigin(icfg, patterns[j]))
 //@   loop 0 invariant a2: (forall j :: 0 <= j && j <= rangeindex ==> OkOrigin(icfg, patterns[j])) ==> (len(errs) == 0)
 //@   loop 0 invariant forall k :: 0 <= k && k < len(errs) ==> errs[k] != nil
